@@ -96,6 +96,16 @@ def rule_diff(ctx):
         ('sideways', False): ('raise', 'ValueError'),
     }
     not_none = {T.mkcmp('is', AXIS, T.CONST_NONE): False}
+    # the rule reads one shape: the first difference np.diff(values, axis=idx), padded / relabelled, and higher orders by recursion.  A function that hands the order to
+    # NumPy (np.diff(values, n=...)) computes the same numbers another way; whether its padding and labels agree for every n is an arithmetic question out of reach here
+    evj = run(ctx, fi, mode='join', facts=not_none)
+    for p in evj.paths:
+        for e in p.calls('diff'):
+            if T.dotted(e.a[1]) in ('np.diff', 'numpy.diff'):
+                n_arg = T.arg(e.a, 1, 'n')
+                if n_arg is not None and n_arg != const(1):
+                    ctx.undecide('R2', 'diff hands the order to NumPy (np.diff(..., n=%s)): a form the rule does not know (it reads the first difference plus recursion)' % T.show(n_arg)[:40])
+                    return
     for (scheme, keep), (kind, arg) in table.items():
         ev = run(ctx, fi, bind={'scheme': const(scheme), 'keepaxis': const(keep), 'n': const(1)}, facts=not_none)
         inst = 'scheme=%s keepaxis=%s' % (scheme, keep)
@@ -247,6 +257,19 @@ def normalise(t, name):
     return tuple(normalise(x, name) if isinstance(x, tuple) else x for x in t)
 
 
+def _obj_is_self_without_axis(ctx):
+    """_deal_with_axis(obj, None) returns obj itself as its first result (nothing is grouped when no axis is given)"""
+    fi = ctx.P.functions.get(TR + '_deal_with_axis')
+    if fi is None or not fi.params:
+        return False
+    try:
+        ev = run(ctx, fi, bind={fi.params[1]: T.CONST_NONE}, oracle=lambda a, st: False if 'type(' in T.show(a) or 'isinstance' in T.show(a) else None)
+    except Exception:
+        return False
+    rets = ret_paths(ev)
+    return bool(rets) and all(p.value[0] == 'tuple' and p.value[1] and p.value[1][0] == P_(fi.params[0]) for p in rets)
+
+
 def rule_arg(ctx):
     ctx.rule('R3', 'argmin / argmax', 4)
     sigs = {}
@@ -267,6 +290,11 @@ def rule_arg(ctx):
         okd = False
         scalar_case = False
         labels_of = ('attr', ('sub', ('attr', OBJ, 'axes'), IDX), 'values')
+        if not any(True for p in ev.paths for e in p.calls('apply_along_axis')):
+            # the positions do not come from apply_along_axis(obj, name, axis=idx): the reduction and its result array are built some other way, which this clause cannot
+            # follow (what the result's axes and dtype are is then decided inside the new code, not by the rules on apply_along_axis)
+            ctx.undecide('R3', '%s no longer reduces through apply_along_axis: the label mapping is written in a form the rule does not know' % name)
+            continue
         for p in ret_paths(ev):
             along = [pol for a, pol in p.guards if a == T.mkcmp('is', AXIS, T.CONST_NONE)]
             # the reduction of a 1-D array along its only axis is a NumPy scalar (apply_along_axis hands non-array results back as they are, C08-R6):
@@ -290,6 +318,10 @@ def rule_arg(ctx):
                     ctx.violated('R3', fi, e.node if e is not None else 'label mapping', why, node=e.node if e is not None else p.node)
             elif along == [True]:
                 v = p.value
+                if _obj_is_self_without_axis(ctx):
+                    # with axis=None _deal_with_axis hands back the array itself: `self.axes` / `self.shape` are `obj.axes` / `obj.shape` on this path
+                    for fld in ('axes', 'shape'):
+                        v = T.replace(v, ('attr', SELF, fld), ('attr', OBJ, fld))
                 unr = ('call', ('attr', ('name', 'np'), 'unravel_index'), (res, ('attr', OBJ, 'shape')), ())
                 good = v[0] == 'call' and T.dotted(v[1]) == 'tuple' and v[2][0][0] == 'comp' \
                     and v[2][0][3][0][1] == ('call', ('name', 'enumerate'), (unr,), ())
